@@ -223,13 +223,14 @@ _BUILTIN_TYPES = {"int": int, "float": float, "str": str, "bool": bool, "list": 
                   "tuple": tuple, "dict": dict, "set": set}
 
 
-GLOBAL_STATE: dict[str, dict[Any, Any]] = {"modconst": {}, "lru": {}}
+GLOBAL_STATE: dict[str, dict[Any, Any]] = {"modconst": {}, "lru": {}, "defaults": {}}
 
 
 def reset_global_state() -> None:
     """Forget module-level values and memoisation caches (a 'fresh interpreter process')."""
     GLOBAL_STATE["modconst"].clear()
     GLOBAL_STATE["lru"].clear()
+    GLOBAL_STATE["defaults"].clear()
 
 
 _CACHE_DECORATORS = ("lru_cache", "cache", "functools.lru_cache", "functools.cache", "cached_property")
@@ -426,6 +427,17 @@ class Interp:
         finally:
             self.depth -= 1
 
+    def _default(self, fi: FuncInfo, name: str, d: ast.expr) -> Any:
+        """Default values are evaluated once (at definition time) and shared by every call: a mutable
+        default that is mutated later is visible to all objects that received it."""
+        if isinstance(d, ast.Constant):
+            return d.value
+        key = (fi.qual, name)
+        store = GLOBAL_STATE["defaults"]
+        if key not in store:
+            store[key] = self.eval(d, {}, fi)
+        return store[key]
+
     def eval_call_class(self, ci: ClassInfo, args: Optional[list[Any]] = None) -> Any:
         """Construct an abstract instance by evaluating the class's __init__ from source."""
         init = self.pm.method(ci, "__init__")
@@ -474,12 +486,12 @@ class Interp:
         dnames = names[len(names) - len(defaults):] if defaults else []
         for n, d in zip(dnames, defaults):
             if n not in env and n not in kwargs:
-                env[n] = self.eval(d, {}, fi)
+                env[n] = self._default(fi, n, d)
         for k, v in kwargs.items():
             env[k] = v
         for kw, d in zip(a.kwonlyargs, a.kw_defaults):
             if kw.arg not in env and d is not None:
-                env[kw.arg] = self.eval(d, {}, fi)
+                env[kw.arg] = self._default(fi, kw.arg, d)
         for n in names:
             if n not in env:
                 raise AnalysisError("ABSINT", f"missing argument {n} for {fi.qual}")
@@ -565,10 +577,14 @@ class Interp:
             try:
                 self.exec_block(st.body, env, fi)
             except AbsRaise as exc:
+                import re as _re
+                mk = _re.match(r"[A-Za-z_][A-Za-z0-9_.]*", exc.what.strip())
+                kind_ = (mk.group(0) if mk else "Exception").split(".")[-1]
+                kinds = {kind_} | _EXC_PARENTS.get(kind_, {"Exception"})
                 for h in st.handlers:
                     tname = ast.unparse(h.type) if h.type is not None else "BaseException"
-                    kind_ = exc.what.split("(")[0].split(":")[0].strip()
-                    if tname in ("Exception", "BaseException") or kind_ in tname:
+                    names = set(_re.findall(r"[A-Za-z_][A-Za-z0-9_]*", tname))
+                    if names & {"Exception", "BaseException"} or names & kinds:
                         if h.name:
                             env[h.name] = exc
                         try:
@@ -1279,7 +1295,7 @@ class Interp:
             try:
                 return int(args[0])
             except (ValueError, TypeError) as exc:
-                raise AbsRaise(f"{type(exc).__name__} int()", where) from exc
+                raise AbsRaise(f"{type(exc).__name__}: int({args[0]!r})", where) from exc
         if name in ("min", "max"):
             seq = list(self.iterate(args[0])) if len(args) == 1 else list(args)
             if not seq:
@@ -1357,7 +1373,10 @@ class Interp:
         if name == "callable":
             return isinstance(args[0], (BoundMethod, FuncRef, Lambda, LocalFunc, ClassRef))
         if name == "float":
-            return float(args[0])
+            try:
+                return float(args[0])
+            except (ValueError, TypeError) as exc:
+                raise AbsRaise(f"{type(exc).__name__}: float({args[0]!r})", where) from exc
         if name == "abs":
             return abs(args[0])
         if name == "dict":
@@ -1490,6 +1509,15 @@ class Interp:
         raise AnalysisError("ABSINT", "key function outside fragment")
 
 
+_EXC_PARENTS = {
+    "KeyError": {"LookupError", "Exception"}, "IndexError": {"LookupError", "Exception"},
+    "UnicodeDecodeError": {"UnicodeError", "ValueError", "Exception"}, "UnicodeEncodeError": {"UnicodeError", "ValueError", "Exception"},
+    "ZeroDivisionError": {"ArithmeticError", "Exception"}, "FileNotFoundError": {"OSError", "IOError", "Exception"},
+    "UnboundLocalError": {"NameError", "Exception"}, "StopIteration": {"Exception"},
+    "ParsingException": {"FlamaException", "Exception"}, "DuplicatedFeature": {"FlamaException", "Exception"},
+    "ElementNotFound": {"FlamaException", "Exception"}, "StatisticsError": {"ValueError", "Exception"},
+    "ParseError": {"SyntaxError", "Exception"}, "NotImplementedError": {"RuntimeError", "Exception"},
+}
 _STR_METHODS = {"startswith", "endswith", "lower", "upper", "replace", "strip", "lstrip", "rstrip",
                 "split", "rsplit", "join", "casefold", "find", "rfind", "index", "format", "isdigit",
                 "isalpha", "isalnum", "isspace", "count", "encode", "decode", "title", "capitalize",
